@@ -192,8 +192,7 @@ Ufunc(f, a, b) ==
      ELSE IF badcol(a) \/ badcol(b) \/ badpy(a) \/ badpy(b) THEN UNSPEC
      ELSE IF NoLoop(f, rt) THEN REFUSED
      \* bit operations are specified through 16-bit patterns: wider operands must lie in the 16-bit signed range
-     ELSE IF f \in BitOps /\ Bits(rt) > 16 /\ \E r \in DOMAIN lens : \E c \in 1..lens[r] :
-                 ~(V(a, r, c) \in -32768..32767 /\ V(b, r, c) \in -32768..32767) THEN UNSPEC
+     ELSE IF \E r \in DOMAIN lens : \E c \in 1..lens[r] : ~BitInRegime(f, rt, V(a, r, c), V(b, r, c)) THEN UNSPEC
      ELSE <<"ragged", OutType(f, rt),
             [r \in DOMAIN lens |-> [c \in 1..lens[r] |-> F2(f, rt, V(a, r, c), V(b, r, c))]]>>
 
